@@ -838,35 +838,50 @@ Proof.
   - left. reflexivity.
 Qed.
 
+(* the class without Float fields: a Float field holding a NaN does not read equal to itself, so the
+   copy post-condition "the destination Equals the source" needs it ([copy_then_equals_refuted_float_nan]) *)
+Fixpoint ty_float_free (ty : ftype) : bool :=
+  match ty with
+  | FScalar KFloat _ _ => false
+  | FScalar _ _ _ | FStruct _ _ _ => true
+  | FArray el _ => ty_float_free el
+  end.
+Definition float_free_sdef (d : sdef) : bool :=
+  forallb (fun fd => match fbody_of fd with Phys _ _ ty _ => ty_float_free ty | _ => true end) d.(fields).
+Definition float_free (m : module) : bool := forallb float_free_sdef m.
+
 Section EqualsTrue.
   Variable m : module.
   Hypothesis Hwf : wf_stable m = true.
+  Hypothesis Hnf : float_free m = true.
 
   (* c is a typed Ok tree; a is above a translate of c, b is above c: then a.Equals(b) *)
   Lemma equals_true_of_tok : forall f,
     (forall ty c c' a b dl,
-       (forall el es, ty <> FArray el es) ->
+       (forall el es, ty <> FArray el es) -> ty_float_free ty = true ->
        tok_type m f ty c -> fsim dl c c' -> fle c' a -> fle c b -> equals_type m f ty a b = true) /\
     (forall d ec ec' ea eb dl,
-       wf_sdef m d = true ->
+       wf_sdef m d = true -> float_free_sdef d = true ->
        tok_struct m f d ec -> env_sim dl ec ec' -> env_rel ec' ea -> env_rel ec eb ->
        equals_struct m f d ea eb = true).
   Proof.
     induction f as [|f [IHt IHs]]; [split; intros; contradiction|]. split.
-    - intros ty c c' a b dl Hna T S Fa Fb.
+    - intros ty c c' a b dl Hna Hff T S Fa Fb.
       cbn [tok_type] in T. destruct T as [Oc T].
       pose proof S as Sb. rewrite fsim_eq in Sb. destruct Sb as (_ & Oc' & Vc' & _ & _ & _ & _ & Us & _).
       rewrite Oc in Oc'. specialize (Vc' Oc).
       destruct (fle_ok _ _ Fa Oc') as [_ Va]. destruct (fle_ok _ _ Fb Oc) as [_ Vb].
       cbn [equals_type]. destruct ty as [k kb bo|tid args ad|el es].
-      + rewrite Va, Vb, Vc'. apply opt_value_eqb_refl.
+      + rewrite scalar_equal_not_float by (intros ->; discriminate).
+        rewrite Va, Vb, Vc'. apply opt_value_eqb_refl.
       + destruct (nth_error m tid) as [d|] eqn:Ed; [|contradiction].
         rewrite fle_eq in Fa, Fb.
         destruct Fa as (_ & _ & _ & _ & _ & Fa & _). destruct Fb as (_ & _ & _ & _ & _ & Fb & _).
         apply (IHs d (fr_sub c) (fr_sub c') (fr_sub a) (fr_sub b) dl); try assumption.
         eapply wf_sdef_of; eassumption.
+        unfold float_free in Hnf. rewrite forallb_forall in Hnf. apply Hnf. eapply nth_error_In; eassumption.
       + exfalso. eapply Hna; reflexivity.
-    - intros d ec ec' ea eb dl Hd T S Fa Fb.
+    - intros d ec ec' ea eb dl Hd Hfd T S Fa Fb.
       cbn [tok_struct] in T. cbn [equals_struct]. apply forallb_forall. intros i Hi.
       specialize (T i Hi).
       destruct (nth_error (fields d) i) as [fd|] eqn:Ef; [|contradiction].
@@ -879,6 +894,8 @@ Section EqualsTrue.
       + rewrite (fle_has _ _ _ Fra Hc'), (fle_has _ _ _ Frb Hh).
         destruct (fbody_of fd) as [start size ty rq | rd rq | p aty | pi] eqn:Eb; try reflexivity.
         * cbn [member_test Bool.eqb andb]. apply (IHt ty rc rc' ra rb dl); try assumption.
+          2:{ unfold float_free_sdef in Hfd. rewrite forallb_forall in Hfd.
+              specialize (Hfd fd (nth_error_In _ _ Ef)). rewrite Eb in Hfd. exact Hfd. }
           intros el es ->. unfold wf_sdef in Hd. rewrite forallb_forall in Hd.
           specialize (Hd fd (nth_error_In _ _ Ef)). unfold wf_field in Hd. rewrite Eb in Hd.
           cbn in Hd. discriminate.
@@ -940,12 +957,12 @@ Section Copy.
       view_try_copy mem (Some (o1, l1)) src = Some mem' /\ length mem' = length mem /\
       let dst' := eval_struct m mem' fuel d ps pinit (SB (Some (o1, l1))) in
       fr_sok dst' = true /\ fr_ssize dst' = Some n /\
-      equals_struct m fuel d (fr_sub dst') (fr_sub src) = true /\
+      (float_free m = true -> equals_struct m fuel d (fr_sub dst') (fr_sub src) = true) /\
       (forall g, observe g (eval_struct m mem' fuel d ps pinit (SB (Some (o1, n)))) =
                  observe g (eval_struct m mem fuel d ps pinit (SB (Some (o2, n))))) /\
       ((o1 = o2 \/ o1 + n <= o2 \/ o2 + l2 <= o1) ->
        let src' := eval_struct m mem' fuel d ps pinit (SB (Some (o2, l2))) in
-       fr_sok src' = true /\ equals_struct m fuel d (fr_sub dst') (fr_sub src') = true).
+       fr_sok src' = true /\ (float_free m = true -> equals_struct m fuel d (fr_sub dst') (fr_sub src') = true)).
   Proof.
     intros Hd Ho1 Hl1 Ho2 Hl2 src Hok Hsz Hn Hn1 Hself.
     assert (Hwd : wf_sdef m d = true).
@@ -978,9 +995,13 @@ Section Copy.
       fold src_n in Ez. pose proof (fle_ssize _ _ _ G1 Ez) as E2. rewrite Hsz in E2. congruence. }
     assert (Hokd : fr_sok dst' = true).
     { rewrite fle_eq in G2. destruct G2 as (_ & _ & G2 & _). apply G2. rewrite Sok. exact Hself. }
-    assert (Heq : equals_struct m fuel d (fr_sub dst') (fr_sub src) = true).
-    { apply (proj2 (equals_true_of_tok m Hwf fuel) d (fr_sub src_n) (fr_sub dst_n) (fr_sub dst') (fr_sub src) (o1 - o2)).
+    assert (Heq : float_free m = true -> equals_struct m fuel d (fr_sub dst') (fr_sub src) = true).
+    { intros Hnf.
+      assert (Hfd : float_free_sdef d = true)
+        by (unfold float_free in Hnf; rewrite forallb_forall in Hnf; apply Hnf; exact Hd).
+      apply (proj2 (equals_true_of_tok m Hwf Hnf fuel) d (fr_sub src_n) (fr_sub dst_n) (fr_sub dst') (fr_sub src) (o1 - o2)).
       - exact Hwd.
+      - exact Hfd.
       - apply ok_view_tok. exact Hself.
       - exact Ssub.
       - rewrite fle_eq in G2. apply G2.
@@ -997,7 +1018,7 @@ Section Copy.
     pose proof S2 as S2b. rewrite fsim_eq in S2b. destruct S2b as (_ & _ & _ & _ & Sok2 & _ & _ & Ssub2 & _).
     pose proof S1 as S1b. rewrite fsim_eq in S1b. destruct S1b as (_ & _ & _ & _ & _ & _ & _ & Ssub1 & _).
     split; [rewrite Sok2; exact Hok|].
-    rewrite <- Heq. symmetry.
+    intros Hnf. rewrite <- (Heq Hnf). symmetry.
     eapply (proj2 (equals_sim m fuel)); try eassumption; apply ok_view_tok; assumption.
   Qed.
 
@@ -1012,10 +1033,10 @@ Section Copy.
       view_try_copy mem (Some (o1, l1)) src = Some mem' /\ length mem' = length mem /\
       let dst' := eval_struct m mem' fuel d ps pinit (SB (Some (o1, l1))) in
       fr_sok dst' = true /\ fr_ssize dst' = Some n /\
-      equals_struct m fuel d (fr_sub dst') (fr_sub src) = true /\
+      (float_free m = true -> equals_struct m fuel d (fr_sub dst') (fr_sub src) = true) /\
       ((o1 = o2 \/ o1 + n <= o2 \/ o2 + n <= o1) ->
        let src' := eval_struct m mem' fuel d ps pinit (SB (Some (o2, n))) in
-       fr_sok src' = true /\ equals_struct m fuel d (fr_sub dst') (fr_sub src') = true).
+       fr_sok src' = true /\ (float_free m = true -> equals_struct m fuel d (fr_sub dst') (fr_sub src') = true)).
   Proof.
     intros Hd Ho1 Hl1 Ho2 Hl2 src Hok Hsz Hn Hn1.
     destruct (copy_then_equals d ps pinit fuel mem o1 l1 o2 n n Hd Ho1 Hl1 Ho2 Hl2 Hok Hsz Hn Hn1 Hok)
@@ -1233,7 +1254,7 @@ Proof.
   destruct (copy_then_equals m_ex wf_stable_example d_ex [] true 8 copy_mem 9 8 0 9 7)
     as (mem' & H1 & H2 & H3 & H4 & H5 & _); try (unfold copy_mem; cbn [length app]; lia); try reflexivity.
   - left. reflexivity.
-  - exists mem'. auto.
+  - exists mem'. repeat (split; [assumption|]). apply H5. reflexivity.
 Qed.
 
 Example copy_then_equals_nonvacuous :
@@ -1262,3 +1283,45 @@ Print Assumptions eval_local_tree_refuted.
 Print Assumptions equals_local_ok_forced.
 Print Assumptions copy_overlap_refuted.
 Print Assumptions copy_self_contained_forced.
+
+(* ====================================================================== *)
+(* ---------- (6) Float fields: Equals is operator== of the values, so a NaN breaks "copy, then Equals" ---------- *)
+(* struct F:  0 [+4] Float x  (little endian).  The module is in the class wf_stable; the source holds
+   the quiet NaN 0x7fc00000.  TryToCopyFrom succeeds, the destination is Ok, has the source's size and
+   the source's bytes, yet destination.Equals(source) is false (and source.Equals(source) is false):
+   the clause "after a successful copy the destination Equals the source" of C20 does not hold for
+   structures with Float fields.  [copy_then_equals] therefore carries the hypothesis float_free m. *)
+Definition m_float : module :=
+  [mk_sdef 8 0%nat
+     [mk_field ktrue (Phys (kz 0) (kz 4) (FScalar KFloat 32 LE) None);
+      size_virt [(ktrue, kz 0, kz 4)]]
+     [0; 1]%nat 1%nat None].
+Definition d_float : sdef := nth 0 m_float (mk_sdef 8 0 [] [] 0 None).
+
+Theorem copy_then_equals_refuted_float_nan :
+  exists m d mem o1 l1 o2 l2 n fuel mem',
+    wf_stable m = true /\ float_free m = false /\ In d m /\
+    0 <= o1 /\ o1 + l1 <= Z.of_nat (length mem) /\ 0 <= o2 /\ o2 + l2 <= Z.of_nat (length mem) /\
+    let src := eval_struct m mem fuel d [] true (SB (Some (o2, l2))) in
+    fr_sok src = true /\ fr_ssize src = Some n /\ n = l2 /\ n <= l1 /\ o2 + l2 <= o1 /\
+    view_try_copy mem (Some (o1, l1)) src = Some mem' /\
+    let dst' := eval_struct m mem' fuel d [] true (SB (Some (o1, l1))) in
+    fr_sok dst' = true /\ fr_ssize dst' = Some n /\
+    firstn (Z.to_nat n) (skipn (Z.to_nat o1) mem') = firstn (Z.to_nat n) (skipn (Z.to_nat o2) mem) /\
+    equals_struct m fuel d (fr_sub dst') (fr_sub src) = false /\
+    equals_struct m fuel d (fr_sub src) (fr_sub src) = false.
+Proof.
+  exists m_float, d_float, [0; 0; 192; 127; 9; 9; 9; 9], 4, 4, 0, 4, 4, 4%nat, [0; 0; 192; 127; 0; 0; 192; 127].
+  split; [reflexivity|]. split; [reflexivity|]. split; [left; reflexivity|].
+  cbn [length]. repeat (split; [lia|]).
+  cbv zeta. split; [reflexivity|]. split; [reflexivity|]. repeat (split; [lia|]).
+  vm_compute. repeat split; reflexivity.
+Qed.
+
+(* +0.0 and -0.0 read equal: two views whose Float bytes differ in the sign bit only are Equal *)
+Example float_zero_signs_equal :
+  let mem := [0; 0; 0; 0; 0; 0; 0; 128] in
+  equals_struct m_float 4 d_float
+    (fr_sub (eval_struct m_float mem 4 d_float [] true (SB (Some (0, 4)))))
+    (fr_sub (eval_struct m_float mem 4 d_float [] true (SB (Some (4, 4))))) = true.
+Proof. vm_compute. reflexivity. Qed.
